@@ -102,14 +102,40 @@ META = {
             "names/definitions in scoped and global mode; a reference scope model predicts acceptance of each command and the "
             "name sets printed by get-unsat-core / get-assignment.",
             "The reference model encodes the scoping rules of the statement; only generated histories are seen.", "4/C21"),
+    "C22": ("tsolver", "invariant monitors on a theory-solver harness: reference verdict per literal set + fresh-solver comparison",
+            "Random assert/check/backtrack walks drive LASolver (LRA, LIA), Egraph and the difference-logic solvers as "
+            "TSolverHandler does; every UNSAT verdict must be on a T-unsatisfiable literal set and every complete SAT verdict "
+            "(LRA, UF, IDL, RDL) on a T-satisfiable one; a fresh solver given the same literals must answer the same; conflicts "
+            "are subsets of the set; deductions are implied by it.",
+            "z3 5.1 and z3 4.8 decide the tiny literal sets; LIA only for the UNSAT half; the array solver is not driven "
+            "directly; 80% of the walks follow the engine's backtracking protocol, 20% are free.", "4/C22"),
     "C23": ("procmon", "replicated-run monitor with ASLR on/off and varying environment",
             "Scripts that print containers (models, cores, interpolants, proofs, assignments) are run 3+1 times; outputs "
             "and exit status must be byte-identical.",
             "ASLR is enabled on the machine (checked and recorded); 4 runs per script.", "4/C23"),
+    "C24": ("threads", "ThreadSanitizer and AddressSanitizer builds of library + harness, plus a run-alone/brute-force result monitor",
+            "2, 4 and 8 threads each create their own logic, configuration and solver and solve problems whose coefficients "
+            "force the arbitrary-precision path (and UF / small-number controls); every concurrent result (status and model "
+            "check) must equal the run-alone result and the brute-force truth; zero TSan / ASan / UBSan reports.",
+            "Interleavings are those the scheduler produced; libgmp is not instrumented, so a race on data inside GMP "
+            "is visible only through wrong results.", "4/C24"),
+    "C25": ("threads", "ThreadSanitizer build with a rendezvous hook (relaxed atomics) plus a known-status result monitor",
+            "notifyStop / notifyGlobalStop are issued from another thread at chosen logical moments of check-sat (stopPoint "
+            "hook: search loop, theory check, preprocessing, elimination) and at free-running delays on instances of known "
+            "status; the result must be unknown or the known status, a sat result must carry a model of all assertions; zero "
+            "TSan reports; the result monitor is repeated on the release build at full speed.",
+            "Moments are those of the hook; the request lands a few instructions after the chosen moment; the monitor's own "
+            "atomics are relaxed so that it adds no synchronisation.", "4/C25"),
     "C26": ("trace", "own exact-arithmetic checker of the Farkas certificates recorded by a hook",
             "Each recorded (literal, coefficient) explanation of an arithmetic conflict is summed in exact rationals: positive "
             "coefficients, all variables cancel, contradictory constant.",
             "Atoms are read in the solver's normal form (<= c poly); negative integer literals are tightened by one.", "4/C26"),
+    "C27": ("apiharness", "reference-model monitor in an ASan/UBSan harness (GMP / python integers / z3) + executable windows",
+            "Constant div/mod against the Euclidean definition (exhaustive on [-40,40]^2, boundary grid, random big operands); "
+            "integer atoms over a coefficient grid and div/mod of sums must keep their meaning (z3, cvc5 for counter-models); "
+            "integer windows lo < a*x < hi around multiples of a, in LIA and IDL form, must be answered exactly as python "
+            "integers decide and the returned value must lie in the window.",
+            "The 'all integers' half of the quantifier is sampled (grid + random), exhaustive only on the small square.", "4/C27"),
     "C28": ("apiharness", "invariant monitor in the API harness (re-construction, commuted construction, term-table audit)",
             "Every constructor call is repeated (same identity required), and/or/+/* are re-called with reversed arguments, and "
             "the whole term table is audited for duplicates and child-before-parent ids.",
@@ -169,7 +195,7 @@ def main():
 
 
 NA_REASON = {}
-HOOK_COMMITS = ["d086e88"]
+HOOK_COMMITS = ["d086e88", "01ed4a7"]
 ENGINES = [
     {"name": "scriptdiff", "path": "vlib/checks/answers.py, vlib/checks/history.py",
      "serves_properties": ["C01", "C02", "C04", "C05", "C29", "C30"],
@@ -179,7 +205,11 @@ ENGINES = [
     {"name": "trace", "path": "vlib/checks/trace.py, vlib/checks/proofs.py, /repo/src/common/VerifHooks.h",
      "serves_properties": ["C10", "C11", "C12", "C13", "C26"],
      "kind_free_text": "guarded hooks writing an event log (assertions, roots, clause stream, theory clauses, Farkas certificates) + offline checkers"},
-    {"name": "apiharness", "path": "harness/*.cc, vlib/checks/apiharness.py", "serves_properties": ["C14", "C15", "C16", "C28"],
+    {"name": "tsolver", "path": "harness/h_tsolver.cc, vlib/checks/tsolver.py", "serves_properties": ["C22"],
+     "kind_free_text": "C++ harness driving the theory solvers directly with replayable random walks; reference verdicts by z3, fresh-solver comparison"},
+    {"name": "threads", "path": "harness/h_threads.cc, harness/h_stop.cc, vlib/checks/threads.py", "serves_properties": ["C24", "C25"],
+     "kind_free_text": "ThreadSanitizer / AddressSanitizer builds of libopensmt.a and multi-threaded harnesses, sanitizer log parsing, result monitors"},
+    {"name": "apiharness", "path": "harness/*.cc, vlib/checks/apiharness.py", "serves_properties": ["C14", "C15", "C16", "C27", "C28"],
      "kind_free_text": "C++ harnesses linked against libopensmt.a (ASan/UBSan or release flavour) with reference-model oracles"},
     {"name": "outputs", "path": "vlib/checks/models.py, cores.py, itp.py, printing.py, rejected.py, scopes.py, vlib/outputs.py",
      "serves_properties": ["C03", "C06", "C07", "C08", "C09", "C17", "C19", "C21"],
